@@ -264,6 +264,22 @@ def step_proofs(ctx, mod):
                 extra = [a for a in axs if a not in allowed]
                 ctx.obligation("thm:%s.%s" % (pf, n), not extra, "unexpected assumptions: " + ", ".join(extra))
                 ctx.trusted.append("Print Assumptions %s: %s" % (n, text[:400]))
+    # thorough tier: independent re-check of the compiled files with coqchk, and its axiom list
+    if built and ctx.thorough():
+        t2 = time.time()
+        mods = ["Norad.Props." + pf for pf in mod.PROPS_FILES]
+        rc3, out3 = sh(["coqchk", "-o", "-silent", "-Q", COQ, "Norad"] + mods, cwd=COQ, timeout=3000)
+        m = re.search(r"\* Axioms:(.*?)\n\s*\n", out3, re.S)
+        axioms = " ".join(m.group(1).split()) if m else "?"
+        names = [a for a in re.findall(r"[A-Za-z_][\w.']*", axioms) if a not in ("none",)]
+        allowed = getattr(mod, "ALLOWED_AXIOMS", []) + getattr(mod, "ALLOWED_COQCHK_AXIOMS", [])
+        extra = [a for a in names if a.split(".")[-1] not in [x.split(".")[-1] for x in allowed]]
+        unsafe = re.findall(r"relying on (type-in-type|unsafe \(co\)fixpoints): (?!<none>)(.*)", out3)
+        unsafe += re.findall(r"(positivity is assumed): (?!<none>)(.*)", out3)
+        ctx.obligation("coqchk:%s" % "+".join(mod.PROPS_FILES), rc3 == 0 and not extra and not unsafe,
+                       "rc=%d axioms=%s unsafe=%s %s" % (rc3, axioms, unsafe, out3[-300:] if rc3 else ""))
+        ctx.trusted.append("coqchk -o (independent checker) on %s: Axioms: %s" % (" ".join(mods), axioms))
+        ctx.timings["coqchk"] = round(time.time() - t2, 1)
     ctx.timings["proofs"] = round(time.time() - t, 1)
     return built
 
